@@ -495,6 +495,14 @@ pub fn frontier_specs() -> Vec<Spec> {
             }
         }
     }
+    // end states whose lowest non-zero derivative is tiny (the end command is decided by a zero test)
+    for &(v1, a1) in &[(1e-7f32, 0.0f32), (-5e-8, 0.0), (1e-30, 0.0), (f32::MIN_POSITIVE, 0.0), (0.0, 1e-7), (0.0, -1e-30), (0.5, 1e-10), (0.0, f32::from_bits(1))] {
+        for &(p0, p1) in &[(0.0f32, 3.0f32), (250.0, -250.0)] {
+            for &vm in &[1.0f32, 30.0] {
+                v.push(Spec { p0, v0: 0.0, p1, v1, a1, vmax: vm, amax: 1.0 });
+            }
+        }
+    }
     v
 }
 
